@@ -365,8 +365,24 @@ RULE_NAMES = {'allof', 'allow_unknown', 'allowed', 'anyof', 'check_with', 'coerc
               'require_all', 'required', 'schema', 'type', 'valuesrules'}
 
 
+def set_at(doc, path, new):
+    """a copy of doc with the value at path replaced"""
+    if not path:
+        return new
+    k = path[0]
+    if isinstance(doc, dict):
+        d = dict(doc)
+        d[k] = set_at(doc[k], path[1:], new)
+        return d
+    if isinstance(doc, (list, tuple)):
+        l = list(doc)
+        l[k] = set_at(doc[k], path[1:], new)
+        return l
+    return doc
+
+
 def c12_oracle(schema, cfg, processed_doc, real_errors, ignore_none=False):
-    def walk(errs, parent, parent_keymode=False):
+    def walk(errs, doc):
         for e in errs:
             if e.is_normalization_error:
                 continue
@@ -379,14 +395,8 @@ def c12_oracle(schema, cfg, processed_doc, real_errors, ignore_none=False):
                 return "error 0x%x at %r: group=%r but children=%r" % (e.code, e.document_path, e.is_group_error, e.child_errors)
             # (3) document path leads to the value
             dp = tuple(e.document_path)
-            keymode = parent is not None and (parent.code == 0x83 or (
-                parent_keymode and tuple(parent.document_path) == dp))
-            if keymode:
-                ok, cont = follow(processed_doc, dp[:-1])
-                if not (ok and isinstance(cont, dict) and dp[-1] in cont and e.value == dp[-1]):
-                    return "keysrules child at %r: last path element is not a key of the mapping / not the value" % (dp,)
-            elif e.code == 0x02:
-                ok, cont = follow(processed_doc, dp[:-1])
+            if e.code == 0x02:
+                ok, cont = follow(doc, dp[:-1])
                 if not ok:
                     return "required-field error at %r: parent container not reachable" % (dp,)
                 missing = (isinstance(cont, dict) and (dp[-1] not in cont or cont[dp[-1]] is None)) or \
@@ -395,7 +405,7 @@ def c12_oracle(schema, cfg, processed_doc, real_errors, ignore_none=False):
                 if not missing:
                     return "required-field error at %r but the field is present" % (dp,)
             else:
-                ok, val = follow(processed_doc, dp)
+                ok, val = follow(doc, dp)
                 if not ok:
                     return "document_path %r of error 0x%x does not lead into the processed document" % (dp, e.code)
                 if not (val is e.value or val == e.value):
@@ -404,7 +414,6 @@ def c12_oracle(schema, cfg, processed_doc, real_errors, ignore_none=False):
             sp = e.schema_path
             if e.rule is not None and not isinstance(sp, str):
                 ok, c = resolve_sp(schema, cfg, sp, cfg.get('allow_unknown', False))
-                spelled = ok
                 if e.rule == 'nullable' and not ok:
                     if e.constraint is not False:
                         return "implicit nullable error at %r carries constraint %r" % (dp, e.constraint)
@@ -415,8 +424,14 @@ def c12_oracle(schema, cfg, processed_doc, real_errors, ignore_none=False):
                 if tuple(sp)[-1:] != (e.rule,):
                     return "schema_path %r does not end with the rule %r" % (tuple(sp), e.rule)
             if e.child_errors:
-                r = walk(e.child_errors, e, keymode)
+                sub = doc
+                if e.code == 0x83:
+                    # key rules validate the keys: beneath this error the mapping reads {key: key}
+                    ok, val = follow(doc, dp)
+                    if ok and isinstance(val, dict):
+                        sub = set_at(doc, dp, {k: k for k in val})
+                r = walk(e.child_errors, sub)
                 if r:
                     return r
         return None
-    return walk(real_errors, None)
+    return walk(real_errors, processed_doc)
